@@ -3,63 +3,191 @@
 //! The x86-64 carry intrinsics are replaced (kani::stub) by the portable arms
 //! of addcarry_u64 / subborrow_u64, whose text is extracted from
 //! /repo/src/backend/w64/mod.rs on every run into portable_arms.rs.
+//!
+//! Reference arithmetic (`refn`) is deliberately naive: limb-wise add with
+//! carry in u128, lexicographic compare, conditional subtraction.
 
 include!(concat!(env!("VH_GEN_DIR"), "/portable_arms.rs"));
 
-use crrl::backend::GF255;
-
-fn any_gf<const MQ: u64>() -> (GF255<MQ>, [u64; 4]) {
-    let l: [u64; 4] = kani::any();
-    (GF255::<MQ>::w64le(l[0], l[1], l[2], l[3]), l)
-}
-
-// 320-bit helpers on little-endian u64 limbs (5 limbs), simple carry loops.
-fn add5(a: [u64; 5], b: [u64; 5]) -> [u64; 5] {
-    let mut r = [0u64; 5];
-    let mut c = 0u128;
-    let mut i = 0;
-    while i < 5 { let t = a[i] as u128 + b[i] as u128 + c; r[i] = t as u64; c = t >> 64; i += 1; }
-    r
-}
-fn ge5(a: [u64; 5], b: [u64; 5]) -> bool {
-    let mut i = 5;
-    while i > 0 { i -= 1; if a[i] != b[i] { return a[i] > b[i]; } }
-    true
-}
-fn sub5(a: [u64; 5], b: [u64; 5]) -> [u64; 5] {
-    let mut r = [0u64; 5];
-    let mut c = 0u128;
-    let mut i = 0;
-    while i < 5 { let t = (a[i] as u128).wrapping_sub(b[i] as u128).wrapping_sub(c); r[i] = t as u64; c = (t >> 127) & 1; i += 1; }
-    r
-}
-fn eq5(a: [u64; 5], b: [u64; 5]) -> bool { a[0] == b[0] && a[1] == b[1] && a[2] == b[2] && a[3] == b[3] && a[4] == b[4] }
-fn q5(mq: u64) -> [u64; 5] { [mq.wrapping_neg(), u64::MAX, u64::MAX, 0x7FFF_FFFF_FFFF_FFFF, 0] }
-/// reduce a value < 8q modulo q by conditional subtraction
-fn red5(mut a: [u64; 5], mq: u64) -> [u64; 5] {
-    let q = q5(mq);
-    let mut k = 0;
-    while k < 8 { if ge5(a, q) { a = sub5(a, q); } k += 1; }
-    a
-}
-fn w5(l: [u64; 4]) -> [u64; 5] { [l[0], l[1], l[2], l[3], 0] }
-
-macro_rules! gf_add_harness { ($name:ident, $mq:expr) => {
-    #[kani::proof]
-    #[kani::stub(crrl::backend::w64::addcarry_u64, portable_addcarry_u64)]
-    #[kani::stub(crrl::backend::w64::subborrow_u64, portable_subborrow_u64)]
-    #[kani::unwind(9)]
-    fn $name() {
-        let (a, la) = any_gf::<$mq>();
-        let (b, lb) = any_gf::<$mq>();
-        let r = (a + b).verif_limbs();
-        let want = red5(add5(red5(w5(la), $mq), red5(w5(lb), $mq)), $mq);
-        assert!(eq5(red5(w5(r), $mq), want));
+pub mod refn {
+    pub fn from_slice<const N: usize>(l: &[u64]) -> [u64; N] { let mut r = [0u64; N]; let mut i = 0; while i < l.len() { r[i] = l[i]; i += 1; } r }
+    pub fn add<const N: usize>(a: [u64; N], b: [u64; N]) -> [u64; N] {
+        let mut r = [0u64; N]; let mut c = 0u128; let mut i = 0;
+        while i < N { let t = a[i] as u128 + b[i] as u128 + c; r[i] = t as u64; c = t >> 64; i += 1; }
+        r
     }
-} }
-gf_add_harness!(k_gf25519_add, 19);
+    pub fn sub<const N: usize>(a: [u64; N], b: [u64; N]) -> [u64; N] {
+        let mut r = [0u64; N]; let mut c = 0u128; let mut i = 0;
+        while i < N { let t = (a[i] as u128).wrapping_sub(b[i] as u128).wrapping_sub(c); r[i] = t as u64; c = (t >> 127) & 1; i += 1; }
+        r
+    }
+    pub fn ge<const N: usize>(a: [u64; N], b: [u64; N]) -> bool {
+        let mut i = N;
+        while i > 0 { i -= 1; if a[i] != b[i] { return a[i] > b[i]; } }
+        true
+    }
+    pub fn eq<const N: usize>(a: [u64; N], b: [u64; N]) -> bool { let mut i = 0; let mut r = true; while i < N { r &= a[i] == b[i]; i += 1; } r }
+    pub fn is_zero<const N: usize>(a: [u64; N]) -> bool { let mut i = 0; let mut r = true; while i < N { r &= a[i] == 0; i += 1; } r }
+    /// k conditional subtractions of q: reduces any x < (k+1)*q into [0,q)
+    pub fn red<const N: usize>(mut a: [u64; N], q: [u64; N], k: usize) -> [u64; N] { let mut j = 0; while j < k { if ge(a, q) { a = sub(a, q); } j += 1; } a }
+    pub fn shl1<const N: usize>(a: [u64; N]) -> [u64; N] { let mut r = [0u64; N]; let mut c = 0u64; let mut i = 0; while i < N { r[i] = (a[i] << 1) | c; c = a[i] >> 63; i += 1; } r }
+    pub fn mul_small<const N: usize>(a: [u64; N], k: u64) -> [u64; N] {
+        let mut r = [0u64; N]; let mut c = 0u128; let mut i = 0;
+        while i < N { let t = (a[i] as u128) * (k as u128) + c; r[i] = t as u64; c = t >> 64; i += 1; }
+        r
+    }
+    pub fn from_le_bytes<const N: usize>(b: &[u8]) -> [u64; N] {
+        let mut r = [0u64; N]; let mut i = 0;
+        while i < b.len() { r[i / 8] |= (b[i] as u64) << (8 * (i % 8)); i += 1; }
+        r
+    }
+    pub fn byte<const N: usize>(a: [u64; N], i: usize) -> u8 { (a[i / 8] >> (8 * (i % 8))) as u8 }
+}
+
+mod gf255 {
+    use super::*;
+    use super::refn as R;
+    use crrl::backend::GF255;
+    type W5 = [u64; 5];
+
+    fn q(mq: u64) -> W5 { R::from_slice(&[mq.wrapping_neg(), u64::MAX, u64::MAX, 0x7FFF_FFFF_FFFF_FFFF]) }
+    fn any_el<const MQ: u64>() -> (GF255<MQ>, W5) {
+        let l: [u64; 4] = kani::any();
+        (GF255::<MQ>::w64le(l[0], l[1], l[2], l[3]), R::from_slice(&l))
+    }
+    fn w<const MQ: u64>(x: &GF255<MQ>) -> W5 { R::from_slice(&x.verif_limbs()) }
+    /// d (mod 2^320, two's complement) is k*q for some k in -4..=4; with |d| < 5q this is exactly "d == 0 mod q"
+    fn mult_of_q(d: W5, mq: u64) -> bool {
+        let mut kq = [0u64; 5];
+        let mut r = false;
+        let mut k = 0;
+        while k <= 4 {
+            r |= R::eq(d, kq);
+            r |= R::eq(d, R::sub([0u64; 5], kq));
+            kq = R::add(kq, q(mq));
+            k += 1;
+        }
+        r
+    }
+    /// canonical value of a 256-bit pattern (< 2^256 < 3q)
+    fn can(x: W5, mq: u64) -> W5 { R::red(x, q(mq), 2) }
+
+    macro_rules! harnesses { ($m:ident, $mq:expr) => { mod $m {
+        use super::*;
+        const MQ: u64 = $mq;
+
+        #[kani::proof]
+        #[kani::stub(crrl::backend::w64::addcarry_u64, portable_addcarry_u64)]
+        #[kani::stub(crrl::backend::w64::subborrow_u64, portable_subborrow_u64)]
+        #[kani::unwind(10)]
+        fn k_add() {
+            let (a, wa) = any_el::<MQ>(); let (b, wb) = any_el::<MQ>();
+            let r = a + b;
+            // |a + b - r| < 2^257 < 5q
+            assert!(mult_of_q(R::sub(R::add(wa, wb), w(&r)), MQ));
+        }
+        #[kani::proof]
+        #[kani::stub(crrl::backend::w64::addcarry_u64, portable_addcarry_u64)]
+        #[kani::stub(crrl::backend::w64::subborrow_u64, portable_subborrow_u64)]
+        #[kani::unwind(10)]
+        fn k_sub() {
+            let (a, wa) = any_el::<MQ>(); let (b, wb) = any_el::<MQ>();
+            let r = a - b;
+            // |r + b - a| < 2^257 < 5q
+            assert!(mult_of_q(R::sub(R::add(w(&r), wb), wa), MQ));
+        }
+        #[kani::proof]
+        #[kani::stub(crrl::backend::w64::addcarry_u64, portable_addcarry_u64)]
+        #[kani::stub(crrl::backend::w64::subborrow_u64, portable_subborrow_u64)]
+        #[kani::unwind(10)]
+        fn k_neg() {
+            let (a, wa) = any_el::<MQ>();
+            let r = -a;
+            assert!(mult_of_q(R::add(w(&r), wa), MQ));
+        }
+        #[kani::proof]
+        #[kani::stub(crrl::backend::w64::addcarry_u64, portable_addcarry_u64)]
+        #[kani::stub(crrl::backend::w64::subborrow_u64, portable_subborrow_u64)]
+        #[kani::unwind(10)]
+        fn k_half() {
+            let (a, wa) = any_el::<MQ>();
+            let r = a.half();
+            assert!(mult_of_q(R::sub(R::shl1(w(&r)), wa), MQ));
+        }
+        #[kani::proof]
+        #[kani::stub(crrl::backend::w64::addcarry_u64, portable_addcarry_u64)]
+        #[kani::stub(crrl::backend::w64::subborrow_u64, portable_subborrow_u64)]
+        #[kani::unwind(34)]
+        fn k_normalized_encode() {
+            let (a, wa) = any_el::<MQ>();
+            let n = a.verif_normalized();
+            assert!(R::eq(w(&n), can(wa, MQ)));
+            let e = a.encode32();
+            let want = can(wa, MQ);
+            let mut i = 0; while i < 32 { assert!(e[i] == R::byte(want, i)); i += 1; }
+        }
+        #[kani::proof]
+        #[kani::stub(crrl::backend::w64::addcarry_u64, portable_addcarry_u64)]
+        #[kani::stub(crrl::backend::w64::subborrow_u64, portable_subborrow_u64)]
+        #[kani::unwind(10)]
+        fn k_iszero_equals() {
+            let (a, wa) = any_el::<MQ>(); let (b, wb) = any_el::<MQ>();
+            let z = a.iszero();
+            assert!(z == if R::is_zero(can(wa, MQ)) { 0xFFFFFFFFu32 } else { 0 });
+            let e = a.equals(b);
+            assert!(e == if R::eq(can(wa, MQ), can(wb, MQ)) { 0xFFFFFFFFu32 } else { 0 });
+        }
+        #[kani::proof]
+        #[kani::unwind(10)]
+        fn k_cond_select_cswap() {
+            let (a, wa) = any_el::<MQ>(); let (b, wb) = any_el::<MQ>();
+            let ctl: u32 = if kani::any() { 0xFFFFFFFF } else { 0 };
+            let mut c = a; c.set_cond(&b, ctl);
+            assert!(R::eq(w(&c), if ctl == 0 { wa } else { wb }));
+            let s = GF255::<MQ>::select(&a, &b, ctl);
+            assert!(R::eq(w(&s), if ctl == 0 { wa } else { wb }));
+            let (mut x, mut y) = (a, b);
+            GF255::<MQ>::cswap(&mut x, &mut y, ctl);
+            assert!(R::eq(w(&x), if ctl == 0 { wa } else { wb }));
+            assert!(R::eq(w(&y), if ctl == 0 { wb } else { wa }));
+        }
+        #[kani::proof]
+        #[kani::stub(crrl::backend::w64::addcarry_u64, portable_addcarry_u64)]
+        #[kani::stub(crrl::backend::w64::subborrow_u64, portable_subborrow_u64)]
+        #[kani::unwind(34)]
+        fn k_decode_ct32() {
+            // every 32-byte string
+            let buf: [u8; 32] = kani::any();
+            let (r, cc) = GF255::<MQ>::decode_ct(&buf);
+            let v = R::from_le_bytes(&buf);
+            if R::ge(v, q(MQ)) {
+                assert!(cc == 0 && R::is_zero(w(&r)));
+            } else {
+                assert!(cc == 0xFFFFFFFF && R::eq(w(&r), v));
+                // encode after successful decode reproduces the input bytes
+                let e = r.encode32();
+                let mut i = 0; while i < 32 { assert!(e[i] == buf[i]); i += 1; }
+            }
+        }
+        #[kani::proof]
+        #[kani::unwind(42)]
+        fn k_decode_ct_badlen() {
+            // every length 0..=40 other than 32 (contents irrelevant to the path, still symbolic)
+            let buf: [u8; 40] = kani::any();
+            let n: usize = kani::any();
+            kani::assume(n <= 40 && n != 32);
+            let (r, cc) = GF255::<MQ>::decode_ct(&buf[..n]);
+            assert!(cc == 0 && R::is_zero(w(&r)));
+            assert!(GF255::<MQ>::decode(&buf[..n]).is_none());
+        }
+    } } }
+    harnesses!(gf25519, 19);
+    harnesses!(gf255e, 18651);
+    harnesses!(gf255s, 3957);
+}
 
 #[kani::proof]
 fn k_smoke_true() { let x: u8 = kani::any(); assert!(x as u32 + 1 > 0); }
+/// vacuity guard: this harness MUST fail; the runner checks that it does.
 #[kani::proof]
-fn k_smoke_false() { let x: u8 = kani::any(); assert!(x != 77); }
+fn k_canary_must_fail() { let x: u8 = kani::any(); assert!(x != 77); }
